@@ -200,8 +200,10 @@ deriving Repr
 
 inductive HOp
   | deliver (ks : List Nat) (faults : List Bool)             -- Execute → proposalsForExecution
-  | outcome (id : Nat) (ok : Bool) (faults : List Bool)      -- sendTx result → storeProposalsStatus(executed|failed)
-  | lost (id : Nat)                                          -- timeout / crash / rawTx error: no outcome recorded
+  -- `Execute` splits a delivery per resource; every group is signed, sent and recorded on its own. `grp` = the
+  -- proposals of the group concerned (those of them that delivery `id` has in flight)
+  | outcome (id : Nat) (grp : List Nat) (ok : Bool) (faults : List Bool)   -- sendTx result → storeProposalsStatus
+  | lost (id : Nat) (grp : List Nat)                         -- timeout / crash / rawTx error: no outcome recorded
   | retry (ds : List Dep) (res dest : Nat) (faults : List Bool)
 deriving Repr
 
@@ -212,7 +214,10 @@ inductive HRes
   | hang                                 -- blocked on propMutex for good
 deriving Repr, DecidableEq
 
-def keysOf (st : HState) (id : Nat) : List Nat := (st.inflight.filter (·.1 = id)).map (·.2)
+/-- the in-flight pairs of group `grp` of delivery `id` -/
+def inGroup (id : Nat) (grp : List Nat) (p : Nat × Nat) : Bool := p.1 = id && grp.contains p.2
+
+def keysOf (st : HState) (id : Nat) (grp : List Nat) : List Nat := (st.inflight.filter (inGroup id grp)).map (·.2)
 
 /-- one operation. `unlockOnErr = true` is the repaired code (deferred unlock); `false` the code as found. -/
 def hstep (unlockOnErr : Bool) (st : HState) : HOp → HRes × HState
@@ -222,11 +227,11 @@ def hstep (unlockOnErr : Bool) (st : HState) : HOp → HRes × HState
     | (none, s')    => (.selected none, { st with m := s'.m, next := st.next + 1, held := !unlockOnErr })
     | (some ps, s') => (.selected (some ps),
         { st with m := s'.m, next := st.next + 1, inflight := st.inflight ++ ps.map (fun k => (st.next, k)) })
-  | .outcome id ok f =>
+  | .outcome id grp ok f =>
     if st.held then (.hang, st) else
-    (.done, { st with m := (storeStatus ⟨st.m, f⟩ (keysOf st id) (if ok then .executed else .failed)).m,
-                      inflight := st.inflight.filter (·.1 ≠ id) })
-  | .lost id => (.done, { st with inflight := st.inflight.filter (·.1 ≠ id) })
+    (.done, { st with m := (storeStatus ⟨st.m, f⟩ (keysOf st id grp) (if ok then .executed else .failed)).m,
+                      inflight := st.inflight.filter (fun p => !inGroup id grp p) })
+  | .lost id grp => (.done, { st with inflight := st.inflight.filter (fun p => !inGroup id grp p) })
   | .retry ds res dest f =>
     let (o, s') := filterDeposits res dest ⟨st.m, f⟩ ds
     (.emitted o, { st with m := s'.m })
@@ -262,13 +267,13 @@ def stepOk (op : HOp) (prev next : List (Nat × Status)) (n : Nat) : Bool :=
     match op with
     | .deliver _ _   => b == a || (canExec a && (b == .pending || b == .failed))
     | .retry _ _ _ _ => b == a || (a == .pending && b == .failed)
-    | .lost _        => a != .executed || b == .executed
-    | .outcome _ _ _ => true
+    | .lost _ _      => a != .executed || b == .executed
+    | .outcome _ _ _ _ => true
 
 /-- record `k` belongs to the execution whose outcome `op` records -/
 def touches (st : HState) (op : HOp) (k : Nat) : Bool :=
   match op with
-  | .outcome id _ _ => (keysOf st id).contains k
+  | .outcome id grp _ _ => (keysOf st id grp).contains k
   | _ => false
 
 /-- no later outcome recording concerns record `k` -/
@@ -284,14 +289,14 @@ def raceOrder (m : List (Nat × Status)) (kb ka : List Nat) (bFirst : Bool) :
   if bFirst then
     let b := hstep true st0 (.deliver kb [])
     let a := hstep true b.2 (.deliver ka [])
-    let s1 := (hstep true a.2 (.outcome 1 true [])).2
-    let s2 := (hstep true s1 (.outcome 0 false [])).2
+    let s1 := (hstep true a.2 (.outcome 1 ka true [])).2
+    let s2 := (hstep true s1 (.outcome 0 kb false [])).2
     (b.1, a.1, s2.m)
   else
     let a := hstep true st0 (.deliver ka [])
-    let s1 := (hstep true a.2 (.outcome 0 true [])).2
+    let s1 := (hstep true a.2 (.outcome 0 ka true [])).2
     let b := hstep true s1 (.deliver kb [])
-    let s2 := (hstep true b.2 (.outcome 1 false [])).2
+    let s2 := (hstep true b.2 (.outcome 1 kb false [])).2
     (b.1, a.1, s2.m)
 
 /-- PRace: two concurrent deliveries behave like one of the two serial orders (each delivery's check-and-mark is
